@@ -32,7 +32,8 @@ def _beh(states):
 
 def _work(job):
     from . import uni_drv
-    kind, payload, float_ticks = job
+    kind, payload, float_ticks = job[:3]
+    F = job[3] if len(job) > 3 else 1
     states = [_G["graph"].state(n) for n in payload] if kind == "path" else payload
     scn, row0, sa, sb, touched, init, views = _beh(states)
     rangesA = sorted({tuple(k) for k in init[0]["pos"]})
@@ -49,7 +50,7 @@ def _work(job):
     for pool, steps, tag, st0, vw in ((pa, sa, "A", init[0], views[0]), (pb, sb, "B", init[1], views[1])):
         prefix = [e if tag == "A" else uni_drv.mirror_event(e) for e in scn]
         er = rangesA if tag == "A" else [(-hi, -lo) for lo, hi in rangesA]
-        r, err, nbars = uni_drv.run_behaviour(pool, prefix, [s[0] for s in steps], row0, float_ticks, er)
+        r, err, nbars = uni_drv.run_behaviour(pool, prefix, [s[0] for s in steps], row0, float_ticks, er, F)
         body = r[len(prefix):]
         # drop the final bar's after_bar record (the behaviour ends inside the last bar)
         if body and body[-1].get("endbar") and (not steps or steps[-1][0]["op"] != "endbar" or len(body) > len(steps)):
@@ -118,10 +119,11 @@ def _work(job):
                 break
     rep = None
     if res:
-        rep = {"kind": "uni_behaviour", "scenario": scn, "row0": row0, "events": [s[0] for s in sa], "float_ticks": float_ticks,
+        rep = {"kind": "uni_behaviour", "scenario": scn, "row0": row0, "events": [s[0] for s in sa], "float_ticks": float_ticks, "F": F,
                "mismatches": [f"{t} {p}/{c}: {x}" for t, p, c, x, _ in res],
                "packed": pack({"states": states, "universe": u})}   # the TLC states (spec side of every step), pickled
-    sample = {"row0": row0, "scenario": [e["op"] for e in scn], "events": [e[0]["op"] + (":" + str(e[0].get("next", "")) if e[0]["op"] == "endbar" else "") + "->" + e[1] for e in sa]}
+    counts["info/run_on_resampled_5min_grid" if F > 1 else "info/run_on_1min_grid"] = 1
+    sample = {"row0": row0, "minutes_per_bar": F, "scenario": [e["op"] for e in scn], "events": [e[0]["op"] + (":" + str(e[0].get("next", "")) if e[0]["op"] == "endbar" else "") + "->" + e[1] for e in sa]}
     return res, rep, counts, len(sa), sample
 
 
@@ -162,13 +164,14 @@ def explore(chk: Check, owner: str, cross=False):
     chk.exhaustive = len(paths) <= budget
     if len(paths) > budget:
         paths = rnd.sample(paths, budget)
-    jobs = [("path", p, i % 4 == 3) for i, p in enumerate(paths)]
+    # every fifth behaviour is supplied as 5 one-minute rows per bar and run on a resampled (5 min) grid
+    jobs = [("path", p, i % 4 == 3, 5 if i % 5 == 2 else 1) for i, p in enumerate(paths)]
     simcfg = "MC_UniLp_sim_fee.cfg" if owner == "C08" else "MC_UniLp_sim.cfg"
     sres, behs = tlc.simulate(SPEC, MC / simcfg, chk.tmp, num=(48 if cross else 160) if quick else (1500 if cross else 3000), depth=12 if quick else 20, seed=chk.seed,
                               workers=16, timeout=1500)
     chk.add_tlc(sres, "simulate " + simcfg)
     chk.spec_violation(sres, "simulate")
-    jobs += [("beh", [s for _, s in b], i % 4 == 3) for i, b in enumerate(behs)]
+    jobs += [("beh", [s for _, s in b], i % 4 == 3, 5 if i % 5 == 2 else 1) for i, b in enumerate(behs)]
     _G["graph"], _G["universe"] = g, universe
     _G.pop("pa", None), _G.pop("pb", None)
     nontrivial = set()
@@ -212,7 +215,7 @@ def replay(chk: Check, path: str, owner: str) -> int:
     d = unpack(rep["packed"])
     _G["universe"] = d["universe"]
     _G.pop("pa", None), _G.pop("pb", None)
-    res_, rep2, counts, nsteps, sample = _work(("beh", d["states"], rep["float_ticks"]))
+    res_, rep2, counts, nsteps, sample = _work(("beh", d["states"], rep["float_ticks"], rep.get("F", 1)))
     chk.traces += 1
     chk.evaluations += nsteps
     for c, n in counts.items():
